@@ -286,9 +286,18 @@ public:
 			BlockType* pC = sum._block;
 			BlockType* pEnd = pC + nrBlocks;
 			while (pC != pEnd) {
-				carry += static_cast<std::uint64_t>(*pA) + static_cast<std::uint64_t>(*pB);
-				*pC = static_cast<bt>(carry);
-				if constexpr (bitsInBlock == 64) carry = 0; else carry >>= bitsInBlock;
+				if constexpr (bitsInBlock == 64) {
+					// a 64-bit accumulator cannot hold the carry out of a 64-bit block: recover it from the wrap-around of each addition
+					std::uint64_t partial = carry + static_cast<std::uint64_t>(*pA);
+					std::uint64_t total = partial + static_cast<std::uint64_t>(*pB);
+					carry = (partial < carry ? 1u : 0u) + (total < partial ? 1u : 0u);
+					*pC = static_cast<bt>(total);
+				}
+				else {
+					carry += static_cast<std::uint64_t>(*pA) + static_cast<std::uint64_t>(*pB);
+					*pC = static_cast<bt>(carry);
+					carry >>= bitsInBlock;
+				}
 				++pA; ++pB; ++pC;
 			}
 			// enforce precondition for fast comparison by properly nulling bits that are outside of nbits
